@@ -964,11 +964,18 @@ def run(ctx):
 
 def search(ctx, pending):
     """Spec lines over the exhaustive small space (and the corpus) on the implementation."""
+    from vlib.core import load_findings, match_finding
     sub = Sub(ctx)
     sub.overlay_root = ctx.overlay_root
     jobs = corpus_jobs() + gen_jobs(sub, small_only=True)
     run_and_evaluate(sub, jobs)
-    return sub.found()
+    # a failing input explains a broken tie only if it is about the same entry point and is not an already
+    # recorded finding (those are reported by the main run itself)
+    entries = {p[1].get('entry') for p in pending}
+    findings = load_findings()
+    out = [f for f in sub.found(limit=10 ** 6)
+           if f['sig'].get('entry') in entries and match_finding(findings, ctx.prop, f['sig']) is None]
+    return out[:5]
 
 
 def replay(ctx, payload):
